@@ -727,7 +727,7 @@ fn process_preprocessed_file(
             // GCC precompiled header:
             || slice[1..].starts_with(PRAGMA_GCC_PCH_PREPROCESS)
             // HP/AIX:
-            || (&slice[1..5] == b"line "))
+            || (&slice[1..6] == b"line "))
         && (start == 0 || bytes[start - 1] == b'\n')
         {
             match process_preprocessor_line(
@@ -2004,6 +2004,27 @@ mod test {
             res.unwrap_err().downcast_ref::<String>().unwrap(),
             "not enough 'metadata' results"
         );
+    }
+
+    #[test]
+    fn test_process_preprocessed_file_line_directive() {
+        // `#line N "file"` (HP/AIX style) announces an include file just like `# N "file"`.
+        for marker in ["# 3", "#line 3"] {
+            let mut bytes = format!("{marker} \"/nonexistent/sccache/x.h\"\nint x;\n").into_bytes();
+            let mut include_files = HashMap::new();
+            let success = process_preprocessed_file(
+                Path::new("/nonexistent/sccache/x.c"),
+                Path::new("/"),
+                &mut bytes,
+                &mut include_files,
+                PreprocessorCacheModeConfig::activated(),
+                std::time::SystemTime::now(),
+                StandardFsAbstraction,
+            )
+            .unwrap();
+            // The include file cannot be stat'ed: preprocessor cache mode is given up.
+            assert!(!success, "{marker}");
+        }
     }
 
     /// Test cases where we test filesystem access
